@@ -135,11 +135,22 @@ def run(run):
         run.bad("C15.Q2", "quoted-slice", where(b), "the stored quoted string is not the slice start + 1 .. end of the row")
     # Q3 / Q4: the repeat count
     reps = [t for _, t in prog.calls(el) if Program.callee_name(t).endswith("str::<impl str>::repeat")]
-    if len(reps) != 1:
-        run.bad("C15.Q3", "blank-repeat", where(b), "expected one `\" \".repeat(n)` in escape_line, found %d" % len(reps))
+    # the same written with iterators: `iter::repeat(' ').take(n)` (extended / collected into the row)
+    takes = []
+    for _, t in prog.calls(el):
+        if re.search(r"Iterator::take$", Program.callee_name(t)) and len(t["args"]) == 2:
+            src_ = strip(ex.operand(t["args"][0]))
+            if src_[0] == "call" and re.search(r"iter::sources::repeat::repeat$", src_[1]):
+                takes.append((t, strip(src_[2][0])))
+    if len(reps) + len(takes) != 1:
+        run.bad("C15.Q3", "blank-repeat", where(b), "expected one `\" \".repeat(n)` in escape_line, found %d" % (len(reps) + len(takes)))
     else:
-        t = reps[0]
-        filler = strip(ex.operand(t["args"][0]))
+        if reps:
+            t = reps[0]
+            filler = strip(ex.operand(t["args"][0]))
+        else:
+            t, fch = takes[0]
+            filler = ("const", "str", " ") if is_const(fch, 32) else fch
         cnt = ex.operand(t["args"][1])
         if filler == ("const", "str", " "):
             run.ok("C15.Q4", "the quoted region is replaced by spaces", where(t), nontrivial=False)
